@@ -433,3 +433,45 @@ inline void fill_int(int32_t *p, int N, int64_t B, int kind, uint64_t seed) {
 }
 
 } // namespace vf
+
+// ---------------------------------------------------------------- guard-page buffers
+// A harness-owned array placed flush against a PROT_NONE page (after its end when tail=true,
+// before its start otherwise); the slack on the other side is filled with a canary pattern.
+// Out-of-bounds accesses by hand-written assembly (invisible to sanitizers) become SIGSEGV or a
+// changed canary.
+#include <sys/mman.h>
+namespace vf {
+struct GuardBuf {
+    unsigned char *base = nullptr;
+    size_t total = 0, bytes = 0;
+    unsigned char *ptr = nullptr;
+    bool tail = true;
+    GuardBuf(size_t nbytes, bool tail_) : bytes(nbytes), tail(tail_) {
+        const size_t pg = 4096;
+        size_t body = ((nbytes + pg - 1) / pg) * pg;
+        if (body == 0) body = pg;
+        total = body + 2 * pg;
+        base = (unsigned char *)mmap(nullptr, total, PROT_READ | PROT_WRITE, MAP_PRIVATE | MAP_ANONYMOUS, -1, 0);
+        if (base == MAP_FAILED) { perror("mmap"); exit(3); }
+        memset(base + pg, 0xC7, body);
+        mprotect(base, pg, PROT_NONE);
+        mprotect(base + pg + body, pg, PROT_NONE);
+        ptr = tail ? base + pg + body - nbytes : base + pg;
+    }
+    ~GuardBuf() { if (base) munmap(base, total); }
+    GuardBuf(const GuardBuf &) = delete;
+    // true when the slack bytes still hold the canary pattern
+    bool canary_ok() const {
+        const size_t pg = 4096;
+        size_t body = total - 2 * pg;
+        const unsigned char *b = base + pg;
+        for (size_t i = 0; i < body; i++) {
+            const unsigned char *q = b + i;
+            if (q >= ptr && q < ptr + bytes) continue;
+            if (*q != 0xC7) return false;
+        }
+        return true;
+    }
+    template <class T> T *as() { return (T *)ptr; }
+};
+} // namespace vf
